@@ -175,6 +175,16 @@ func searchIndex(p *binary.BinaryProtocol, idx int, elementWireType proto.WireTy
 	return p.Read, errNotFound
 }
 
+// isPackedList tells whether the LIST Node described by desc, whose bytes buf start at the tag of its first element, is packed.
+// Scalar elements are not always packed ([packed = false]): the wire type of the tag tells the layout
+func isPackedList(buf []byte, desc *proto.TypeDescriptor) bool {
+	if !desc.IsPacked() {
+		return false
+	}
+	tag, n := protowire.ConsumeVarint(buf)
+	return n > 0 && proto.WireType(tag&7) == proto.BytesType
+}
+
 // skipList moves p from the tag of the first element of a LIST Node to its end and counts the elements.
 // Unlike p.SkipAllElements it knows the wire type of the elements, so it can count fixed-width packed elements too
 func skipList(p *binary.BinaryProtocol, desc *proto.TypeDescriptor) (int, error) {
@@ -562,10 +572,25 @@ func (self *Value) SetByPath(sub Node, path ...Path) (exist bool, err error) {
 
 	// search source node by path
 	v, address := self.getByPath(path...)
-	if v.IsError() {
-		if !v.isErrNotFoundLast() {
-			return false, v
+	if v.IsError() && !v.isErrNotFoundLast() {
+		return false, v
+	}
+
+	// whether the target is an element inside the bytes of a packed list
+	isPacked := false
+	if path[l-1].t == PathIndex {
+		listDesc, err := getDescByPath(self.Desc, path[:l-1]...)
+		if err != nil {
+			return false, err
 		}
+		listStart := 0
+		if l > 1 {
+			listStart = address[l-2]
+		}
+		isPacked = isPackedList(self.raw()[listStart:], listDesc)
+	}
+
+	if v.IsError() {
 
 		// find target node descriptor
 		targetPath := path[l-1]
@@ -583,7 +608,7 @@ func (self *Value) SetByPath(sub Node, path ...Path) (exist bool, err error) {
 		}
 		
 		// set sub node bytes by path and descriptor to check whether the node need to append tag
-		if err := v.setNotFound(targetPath, &sub, desc); err != nil {
+		if err := v.setNotFound(targetPath, &sub, desc, isPacked); err != nil {
 			return false, err
 		}
 		// insert at the position getByPath stopped at
@@ -594,7 +619,6 @@ func (self *Value) SetByPath(sub Node, path ...Path) (exist bool, err error) {
 
 	originLen := len(self.raw()) // root buf length
 	err = self.replace(v.Node, sub) // replace ErrorNode bytes by sub Node bytes
-	isPacked := path[l-1].t == PathIndex && sub.t.IsPacked()
 	self.updateByteLen(originLen, address, isPacked, path...)
 	return
 }
@@ -697,8 +721,8 @@ func (self *Value) UnsetByPath(path ...Path) error {
 	if err != nil {
 		return err
 	}
-	isPacked := desc.IsPacked()
-	
+	isPacked := parentValue.t == proto.LIST && isPackedList(parentValue.raw(), desc)
+
 	if p.t == PathFieldName {
 		f := desc.Message().ByName(p.str())
 		p = NewPathFieldId(f.Number())
@@ -788,7 +812,7 @@ func (self *Value) findDeleteChild(path Path) (Node, int) {
 			return errNotFound, -1
 		}
 		// packed : [ListTag][ListLen][(l)v][(l)v][(l)v][(l)v].....
-		if self.Desc.IsPacked() {
+		if isPackedList(self.raw(), self.Desc) {
 			if _, _, _, err := it.p.ConsumeTag(); err != nil {
 				return errNode(meta.ErrRead, "", err), -1
 			}
@@ -1152,7 +1176,7 @@ func (self *Value) SetMany(pathes []PathNode, opts *Options, root *Value, addres
 	ps.b = pathes
 	originLen := len(self.raw()) // current buf length
 	rootLen := len(root.raw())   // root buf length
-	isPacked := self.Desc.IsPacked()
+	isPacked := self.t == proto.LIST && isPackedList(self.raw(), self.Desc)
 
 	// get original values
 	if err = self.getMany(ps.a, true, opts); err != nil {
@@ -1167,7 +1191,7 @@ func (self *Value) SetMany(pathes []PathNode, opts *Options, root *Value, addres
 				sp = rt.AddPtr(self.v, uintptr(self.l))
 			}
 			ps.a[i].Node = errNotFoundLast(sp, self.t)
-			ps.a[i].Node.setNotFound(a.Path, &ps.b[i].Node, self.Desc)
+			ps.a[i].Node.setNotFound(a.Path, &ps.b[i].Node, self.Desc, isPacked)
 			if self.t == proto.LIST || self.t == proto.MAP {
 				self.size += 1
 			}
